@@ -57,16 +57,31 @@ def r1_chain(cx):
     it = gb.calls(r"<&std::vec::Vec<.*> as std::iter::IntoIterator>::into_iter$")
     nx = gb.calls(r"slice::Iter<.*> as std::iter::Iterator>::next$")
     vloc = gb.calls(r"PackLocatorTrait>::locate$")
-    issome = gb.calls(r"Option::<.*>::is_some$")
-    ok = len(it) == 1 and len(nx) == 1 and len(vloc) == 1 and len(issome) == 1
+    adapters = [callee_str(t) for i, t in gb.calls(r"::(rev|skip|take|filter|step_by|skip_while|take_while)(::<.*>)?$")]
+    ok = len(it) == 1 and len(nx) == 1 and len(vloc) == 1 and not adapters
     if ok:
-        # the Some arm returns without asking the next locator
-        sw = issome[0][1]["t"]
-        t = gb.term(sw)
-        some_t = t["otherwise"]
-        r = gb.reachable(some_t)
-        ok = t["k"] == "switch" and nx[0][0] not in r and any(gb.term(x)["k"] == "return" for x in r) and \
-            any(o == ("call", vloc[0][0]) for (i, fld) in _oks(gb) if i in r for o in gb.origins(fld))
+        N, L = nx[0][0], vloc[0][0]
+        # the test "did this locator know the pack": a switch on is_some()/is_none() or on the discriminant of an
+        # Option that derives from the locate call
+        some_arms = []
+        for sblk in gb.reach_after(L, avoid={N}):
+            t = gb.term(sblk)
+            if t["k"] != "switch" or gb.is_cleanup(sblk):
+                continue
+            d = op_local(t["op"])
+            for df in gb.defs().get(d, []) if d is not None else []:
+                if df[0] == "stmt" and df[3]["rv"]["k"] == "discr" and df[3]["rv"].get("of", "").startswith("std::option::Option") and ("call", L) in gb.origins(df[3]["rv"]["pl"]["l"]):
+                    some_arms.append(t["targets"][t["vals"].index(1)] if 1 in t["vals"] else t["otherwise"])
+                if df[0] == "call" and call_is(df[2], r"Option::<.*>::is_some$") and ("call", L) in gb.origins(df[2]["args"][0]):
+                    some_arms.append(t["otherwise"] if 0 in t["vals"] else t["targets"][t["vals"].index(1)])
+                if df[0] == "call" and call_is(df[2], r"Option::<.*>::is_none$") and ("call", L) in gb.origins(df[2]["args"][0]):
+                    some_arms.append(t["targets"][t["vals"].index(0)] if 0 in t["vals"] else t["otherwise"])
+        ok = bool(some_arms)
+        for some_t in some_arms:
+            # the Some arm returns the located reader without asking the next locator
+            r = gb.reachable(some_t)
+            ok = ok and N not in r and any(gb.term(x)["k"] == "return" for x in r) and \
+                any(o == ("call", L) for (i, fld) in _oks(gb) if i in r for o in gb.origins(fld))
         # uuid and path are forwarded unchanged
         ok = ok and ("param", 2) in gb.origins(vloc[0][1]["args"][1], through_calls=False) and ("param", 3) in gb.origins(vloc[0][1]["args"][2], through_calls=False)
     cx.ob("R1", "R1/ChainedLocator.locate/first-some-wins", ok, g, "ChainedLocator::locate iterates the vector forward and returns the first Some(reader), forwarding (uuid, path) unchanged")
@@ -287,21 +302,6 @@ def r7_manifest_search_is_order_independent(cx):
     src_ok = any(("field", fld) in b.origins(t["args"][0]) for i, t in b.calls(r"IntoIterator>::into_iter$") for fld in ("packs", "packs_uuid"))
     cx.ob("R7", "R7/manifest-search/over-all-packs", src_ok and not adapters, f,
           "the loop iterates self.packs / self.packs_uuid with no element-dropping adapter (adapters: %s)" % adapters)
-    # the Manifest arm: switch on discr(<header>.magic) whose explicit value is PackKind::Manifest
-    man = next(v["discr"] for v in F.enum("PackKind")["variants"] if v["name"] == "Manifest")
-    arms = []
-    for i, blk in enumerate(b.blocks):
-        t = blk["t"]
-        if t["k"] == "switch" and not blk.get("cleanup"):
-            l = op_local(t["op"])
-            for d in b.defs().get(l, []):
-                if d[0] == "stmt" and d[3]["rv"]["k"] == "discr" and d[3]["rv"].get("of", "").endswith("PackKind"):
-                    for val, tgt in zip(t["vals"], t["targets"]):
-                        if val == man:
-                            arms.append(tgt)
-    if not arms:
-        raise AnchorLost("get_manifest_pack_reader: no switch on <header>.magic with the Manifest value")
-    avoid = {n} | b.error_blocks() | b.err_return_blocks() | set(arms)
     # the match on the result of next(): its None arm leaves the loop legitimately (exhaustion)
     disc = None
     for x in b.succ[n]:
@@ -314,9 +314,24 @@ def r7_manifest_search_is_order_independent(cx):
         raise AnchorLost("get_manifest_pack_reader: no match on the result of next()")
     t = b.blocks[disc]["t"]
     some_tgts = [tgt for val, tgt in zip(t["vals"], t["targets"]) if val == 1]
-    escaped = [x for x in b.reachable(some_tgts, avoid=avoid) if b.blocks[x]["t"]["k"] == "return"]
+    # every way out of the loop body other than the next iteration or an error hands back the pack at hand
+    # (`Ok(Some(reader))`): a path that gives up (`break`, `return Ok(None)`) on some other pack is an early exit
+    region = b.reachable(some_tgts, avoid={n} | b.error_blocks() | b.err_return_blocks())
+    gives_up = []
+    found = 0
+    for x in sorted(region):
+        for st in b.blocks[x]["s"]:
+            if st["k"] == "assign" and st["lhs"]["l"] == 0 and not st["lhs"].get("p") and st["rv"]["k"] == "agg" and st["rv"].get("variant") == "Ok":
+                fo = b.origins(st["rv"]["fields"][0], through_calls=True)
+                inner = [d for d in b.defs().get(op_local(st["rv"]["fields"][0]), []) if d[0] == "stmt" and d[3]["rv"]["k"] == "agg"]
+                if inner and all(d[3]["rv"].get("variant") == "Some" for d in inner) and any(o[0] == "call" and call_is(b.term(o[1]), r"Clone>::clone$") for o in fo):
+                    found += 1
+                else:
+                    gives_up.append(st.get("ln"))
+    escaped = gives_up
+    some_tgts = some_tgts if found else []
     cx.ob("R7", "R7/manifest-search/no-early-exit", bool(some_tgts) and not escaped, f,
-          "from the body of the loop over the packs, no path reaches the return without passing next(), an error exit or the `magic == Manifest` arm (a pack of another kind never ends the search)")
+          "from the body of the loop over the packs, the only ways out are the next iteration, an error, or `Ok(Some(<the pack at hand>))`: no path gives up the search on a pack of another kind (lines %s)" % gives_up)
 
 
 RULES = [
